@@ -1,41 +1,37 @@
 package tmengine
 
-// C10, engine level: what the state machine is given when the engine is restarted on the same
-// stores. The real (*Engine).maybeInitializeChain runs twice on the shipped in-memory stores:
-// the first call initialises the chain through the driver (harness goroutine answering the
-// InitChain request, with or without a validator override, symbolic powers and initial height);
-// the second call is the restart, either before or after the mirror store was first written.
-// The state machine compares heights with Genesis.InitialHeight, takes the validator set of the
-// initial height from Genesis.ValidatorSet and derives the first block's predecessor from
-// Genesis.Header: so the genesis handed over on restart has to equal the one of the first start
-// (an all-zero genesis makes the state machine look up finalizations at height -1 and -2 and
-// give up when it restarts at the initial height or the one after it).
+// C10, engine level, end to end for the state machine: "the engine is restarted on the same
+// stores, it starts without error ... positions are not behind what had been durably recorded".
+// The real (*Engine).maybeInitializeChain initialises the chain through the driver (harness
+// goroutine answering InitChain); a real state machine (kit of C08, through its probe API) runs
+// on that finalization store with the genesis the engine produced, handles 0-3 events and the
+// process dies - at the initial height in round 0 or 1, in commit wait with the finalization
+// stored, or at the next height; then maybeInitializeChain runs again (the restart, before or
+// after the mirror store was first written, with or without an init-chain channel) and a new
+// state machine is started on the same stores with whatever genesis that second call returned.
+// It has to come up, in the round the restart rules of C08 prescribe.
 
 import (
 	"context"
 
 	"github.com/gordian-engine/gordian/internal/verifrt"
-	"github.com/gordian-engine/gordian/internal/verifrt/vkit"
 	"github.com/gordian-engine/gordian/tm/tmconsensus"
 	"github.com/gordian-engine/gordian/tm/tmdriver"
+	"github.com/gordian-engine/gordian/tm/tmengine/internal/tmstate"
 	"github.com/gordian-engine/gordian/tm/tmstore/tmmemstore"
 )
 
 func VH_C10_EngineGenesisOnRestart() {
 	ctx := context.Background()
-	hs := vkit.HashScheme{}
-	ih := verifrt.U64("initial-height")
-	verifrt.Assume(ih >= 1 && ih < 1<<62)
-	gvs := vkit.ValSet(vkit.OkKeys(2), vkit.Powers("genesis-power", 2))
-	override := verifrt.Choose("driver-overrides-validators", 2) == 1
-	ovs := vkit.ValSet(vkit.OkKeys(3)[1:], vkit.Powers("override-power", 2))
+	hs := tmstate.VHProbeHashScheme()
+	gvs := tmstate.VHProbeValidators()
 
 	ms := tmmemstore.NewMirrorStore()
 	fs := tmmemstore.NewFinalizationStore()
 	newEngine := func(initCh chan tmdriver.InitChainRequest) *Engine {
 		e := &Engine{
 			log:        verifrt.Logger(),
-			genesis:    &tmconsensus.ExternalGenesis{ChainID: "vh", InitialHeight: ih, GenesisValidatorSet: gvs},
+			genesis:    &tmconsensus.ExternalGenesis{ChainID: "vh", InitialHeight: 1, GenesisValidatorSet: gvs},
 			hashScheme: hs,
 		}
 		e.mCfg.Store = ms
@@ -45,57 +41,62 @@ func VH_C10_EngineGenesisOnRestart() {
 		return e
 	}
 
-	// first start: the driver answers InitChain
+	// first start: the driver answers InitChain (keeping the genesis validators)
 	initCh := make(chan tmdriver.InitChainRequest)
 	go func() {
 		req := <-initCh
-		resp := tmdriver.InitChainResponse{AppStateHash: []byte("app0")}
-		if override {
-			resp.Validators = ovs.Validators
-		}
-		req.Resp <- resp
+		req.Resp <- tmdriver.InitChainResponse{AppStateHash: []byte("app")}
 	}()
 	g1, err := newEngine(initCh).maybeInitializeChain(ctx, fs)
 	verifrt.Assert(err == nil, "C10:first-start-initialises-the-chain")
 	if err != nil {
 		return
 	}
-	h1, err := g1.Header(hs)
-	verifrt.Assert(err == nil, "C10:first-genesis-has-a-header")
 	verifrt.Reach("C10-genesis:chain-initialised")
 
-	// the process stops before or after the mirror first wrote its position
-	if verifrt.Choose("mirror-store-written", 2) == 1 {
-		_ = ms.SetNetworkHeightRound(ctx, ih, 0, 0, 0)
-		verifrt.Reach("C10-genesis:restart-after-mirror-start")
-	} else {
-		verifrt.Reach("C10-genesis:restart-before-mirror-start")
+	// first life of the state machine
+	p := tmstate.VHNewProbe(g1, fs)
+	h, r, finalized, ok := p.FirstLife(verifrt.Choose("events-in-the-first-life", 4))
+	if !ok {
+		return
+	}
+	switch {
+	case h == 1 && r == 0 && !finalized:
+		verifrt.Reach("C10-genesis:died-at-the-initial-height-round-0")
+	case h == 1 && r > 0:
+		verifrt.Reach("C10-genesis:died-at-the-initial-height-in-a-later-round")
+	case h == 1 && finalized:
+		verifrt.Reach("C10-genesis:died-in-commit-wait-with-the-finalization-stored")
+	case h == 2:
+		verifrt.Reach("C10-genesis:died-at-the-second-height")
 	}
 
-	// restart on the same stores; the driver may or may not offer an init chain channel again
+	// the mirror wrote its position before the process died, or never got that far
+	if h > 1 || verifrt.Choose("mirror-store-written", 2) == 1 {
+		_ = ms.SetNetworkHeightRound(ctx, h, r, h-1, 0)
+	}
+
+	// restart: the engine decides again whether to initialise the chain and what genesis the
+	// state machine gets; the driver may or may not offer an init-chain channel this time
 	var initCh2 chan tmdriver.InitChainRequest
 	if verifrt.Choose("init-chain-channel-on-restart", 2) == 1 {
 		initCh2 = make(chan tmdriver.InitChainRequest)
 	}
 	g2, err := newEngine(initCh2).maybeInitializeChain(ctx, fs)
-	verifrt.Assert(err == nil, "C10:restart-does-not-fail")
+	verifrt.Assert(err == nil, "C10:engine-restart-does-not-fail")
 	if err != nil {
 		return
 	}
-	verifrt.Assert(g2.InitialHeight == ih, "C10:restarted-state-machine-is-told-the-initial-height")
-	want := gvs
-	if override {
-		want = ovs
+	up, h2, r2 := p.Restart(g2)
+	verifrt.Assert(up, "C10:state-machine-comes-up-again-on-the-same-stores")
+	if !up {
+		return
 	}
-	same := len(g2.ValidatorSet.Validators) == 2
-	if same {
-		for i := range want.Validators {
-			same = verifrt.And(same, g2.ValidatorSet.Validators[i].Power == want.Validators[i].Power)
-			same = verifrt.And(same, g2.ValidatorSet.Validators[i].PubKey.Equal(want.Validators[i].PubKey))
-		}
+	verifrt.Observe("restart", h, uint64(r), h2, uint64(r2))
+	if finalized {
+		verifrt.Assert(h2 == h+1 && r2 == 0, "C10:restart-after-a-stored-finalization-enters-the-next-height")
+	} else {
+		verifrt.Assert(h2 == h && r2 == r, "C10:restart-resumes-the-recorded-round")
 	}
-	verifrt.Assert(same, "C10:restarted-state-machine-is-given-the-initial-validator-set")
-	verifrt.Assert(string(g2.CurrentAppStateHash) == "app0" && g2.ChainID == "vh", "C10:restarted-genesis-has-chain-id-and-app-state-hash")
-	h2, err := g2.Header(hs)
-	verifrt.Assert(err == nil && string(h2.Hash) == string(h1.Hash), "C10:restarted-genesis-yields-the-same-genesis-block-hash")
+	verifrt.Reach("C10-genesis:restarted")
 }
